@@ -148,10 +148,10 @@ def run(ctx):
     full = next(c for c in cases if len(c["idx"]["t"]) >= 7 and c["profile"] == "exact64")
     ctx.sample({"list_ranks": full["idx"]["t"], "profile": full["profile"], "table": full["table"]})
     # binding B: random lists (up to thousands of IDs, random layouts) with random calls, judged by TLC
+    col.register()
     itertrace.selftest(ctx, "list")
     itertrace.validate(ctx, col, mode="list", runs=ctx.pick(150, 1500), maxkeys=ctx.pick(700, 5000),
                        calls=ctx.pick(25, 60), kinds="compact")
-    col.register(model)
     ctx.evaluations += col.stats.get("sequences", 0)
     ctx.traces_validated += col.stats.get("sequences", 0)
     return ctx.finish(
